@@ -25,13 +25,15 @@ SCHEDULE_MEASURE = "distinct operation-history hashes"
 COMPONENTS = {
     "real": ["sc62015/pysc62015/emulator.py Registers.get/set/get_flag/set_flag",
              "sc62015/pysc62015/stepper.py CPURegistersSnapshot.from_registers/apply_to",
+             "sc62015/pysc62015/cpu.py CPU facade: regs, snapshot_registers, apply_snapshot (python backend)",
+             "sc62015/core/src/lib.rs CoreRuntime::set_reg/get_reg (string-keyed)",
              "sc62015/core/src/llama/state.rs LlamaState::{set_reg,get_reg}",
              "sc62015/core/src/lib.rs collect_registers/apply_registers", "sc62015/core/src/snapshot.rs pack/unpack_registers"],
     "stub": [],
 }
 ASSUMPTIONS = ["IMR as a Rust pseudo-register and unknown register names are not part of the property"]
 PROBES = ["il_write_clears_ih", "alias_read_after_write", "truncation", "restart_py", "restart_rs_pack", "flag_via_f", "f_via_flag",
-          "temp_write"]
+          "temp_write", "snapshot_discarded", "api_cpu_runtime", "api_cpu_state", "api_regs_runtime", "api_regs_state"]
 
 NAMES = ["A", "B", "BA", "IL", "IH", "I", "X", "Y", "U", "S", "PC", "F", "FC", "FZ"]
 TEMPS = [f"TEMP{i}" for i in range(14)]
@@ -49,7 +51,7 @@ def generate(batch: str, r: Rng, idx: int, tier: str) -> Dict[str, Any]:
     n = r.choice([20, 50, 100, 200])
     ops: List[list] = []
     while len(ops) < n:
-        k = r.weighted([("set", 10), ("get", 8), ("restart", 1), ("sweep", 1)])
+        k = r.weighted([("set", 10), ("get", 8), ("restart", 1), ("sweep", 1), ("peek", 1)])
         if k == "set":
             name = r.choice(NAMES + NAMES + TEMPS[:4]) if r.chance(4, 5) else r.choice(TEMPS)
             v = r.choice(VALUES) if r.chance(1, 2) else r.below(1 << 32)
@@ -61,6 +63,8 @@ def generate(batch: str, r: Rng, idx: int, tier: str) -> Dict[str, Any]:
                 ops.append(["get", other])
         elif k == "get":
             ops.append(["get", r.choice(NAMES + TEMPS[:3]) if r.chance(3, 4) else r.choice(TEMPS)])
+        elif k == "peek":
+            ops.append(["peek"])       # a snapshot taken and thrown away; the register file lives on and is written again
         elif k == "restart":
             ops.append(["restart", r.choice(["apply", "pack"])])
             if r.chance(1, 2):
@@ -70,16 +74,43 @@ def generate(batch: str, r: Rng, idx: int, tier: str) -> Dict[str, Any]:
         else:
             for name in NAMES:
                 ops.append(["get", name])
-    return {"kind": "regs", "exec": "py+rs-regs", "ops": ops}
+    # which interface carries the history: the register files themselves, or the objects a machine holds them in —
+    # the CPU facade (cpu.regs, snapshot_registers / apply_snapshot) and CoreRuntime's string-keyed set_reg / get_reg
+    ra = r.child("api")
+    return {"kind": "regs", "exec": "py+rs-regs", "ops": ops, "py_api": ra.choice(["regs", "cpu"]),
+            "rs_api": ra.choice(["state", "runtime"])}
 
 
 def _run_py(scn: Dict[str, Any]) -> List[Any]:
     from sc62015.pysc62015.emulator import Registers, RegisterName
     from sc62015.pysc62015.stepper import CPURegistersSnapshot
-    regs = Registers()
+    facade = scn.get("py_api") == "cpu"
+
+    def new_cpu():
+        from binja_test_mocks.eval_llil import Memory
+        from sc62015.pysc62015.cpu import CPU
+        return CPU(Memory(lambda a: 0, lambda a, v: None), reset_on_init=False, backend="python")
+
+    cpu = new_cpu() if facade else None
+    regs = cpu.regs if facade else Registers()
+    if facade:
+        for nm in ("BA", "I", "X", "Y", "U", "S", "PC", "F"):
+            regs.set(RegisterName[nm], 0)
     out: List[Any] = []
     for op in scn["ops"]:
-        if op[0] == "set":
+        if op[0] == "peek":
+            if facade:
+                cpu.snapshot_registers()
+            else:
+                CPURegistersSnapshot.from_registers(regs)
+            out.append(None)
+        elif op[0] == "restart" and facade:
+            snap = cpu.snapshot_registers()
+            cpu = new_cpu()
+            cpu.apply_snapshot(snap)
+            regs = cpu.regs
+            out.append(None)
+        elif op[0] == "set":
             if op[1] in ("FC", "FZ") and (len(out) % 2):
                 regs.set_flag(op[1][1], op[2])      # same register through the flag interface
             else:
@@ -106,7 +137,7 @@ def execute(scn: Dict[str, Any]) -> Dict[str, Any]:
             rs_ops.append(["roundtrip"] if op[1] == "pack" else ["apply"])
         else:
             rs_ops.append(op)
-    rs = host().call([["r.script", rs_ops]])[0]
+    rs = host().call([["r.script", rs_ops, scn.get("rs_api", "state")]])[0]
     return {"py": _run_py(scn), "rs": rs}
 
 
@@ -184,9 +215,13 @@ def check(scn: Dict[str, Any], hist: Dict[str, Any]) -> List[Dict[str, Any]]:
             if op[2] > 0xFFFFFF:
                 probe("truncation")
             continue
+        if op[0] == "peek":
+            probe("snapshot_discarded")
+            continue
         if op[0] == "restart":
             restarted = True
             probe("restart_rs_pack" if op[1] == "pack" else "restart_py")
+            probe("api_" + scn.get("py_api", "regs") + "_" + scn.get("rs_api", "state"))
             if op[1] == "pack":
                 blob = hist["rs"][i]
                 exp = []
